@@ -70,6 +70,11 @@ func (p *Parser) rune() rune {
 	}
 	p.col += int64(p.w)
 	bquotes := 0
+	if p.r == runeEOF {
+		// We stopped early, such as via [StopAt]; do not resume reading
+		// whichever bytes happen to be left in the buffer.
+		return p.r
+	}
 retry:
 	if p.bsp >= uint(len(p.bs)) && p.fill() == 0 {
 		// Necessary for the last position to be correct.
@@ -282,17 +287,11 @@ skipSpace:
 			break skipSpace
 		}
 	}
-	if p.stopAt != nil && (p.spaced || p.tok == illegalTok || p.stopToken()) {
-		// Note that the buffer may have been refilled since we read r,
-		// such as when peeking at the byte which follows a backslash,
-		// in which case r's bytes are gone and we cannot match on them.
-		w := uint(utf8.RuneLen(r))
-		if p.bsp >= w && bytes.HasPrefix(p.bs[p.bsp-w:], p.stopAt) {
-			p.r = runeEOF
-			p.w = 1
-			p.tok = _EOF
-			return
-		}
+	if p.stopAt != nil && (p.spaced || p.tok == illegalTok || p.stopToken()) && p.atStopWord(r) {
+		p.r = runeEOF
+		p.w = 1
+		p.tok = _EOF
+		return
 	}
 	p.pos = p.nextPos()
 	switch {
@@ -413,6 +412,27 @@ skipSpace:
 	if p.err != nil {
 		p.tok = _EOF
 	}
+}
+
+// atStopWord reports whether the input at r, the rune we just read,
+// begins with the word configured via [StopAt].
+func (p *Parser) atStopWord(r rune) bool {
+	// Note that the buffer may have been refilled since we read r,
+	// such as when peeking at the byte which follows a backslash,
+	// in which case r's bytes are gone. The bytes which follow r may not
+	// have been read yet either. Match r on its own, and peek for the rest.
+	var buf [utf8.UTFMax]byte
+	first := buf[:utf8.EncodeRune(buf[:], r)]
+	if len(p.stopAt) <= len(first) {
+		return bytes.HasPrefix(first, p.stopAt)
+	}
+	rest, ok := bytes.CutPrefix(p.stopAt, first)
+	if !ok {
+		return false
+	}
+	for len(p.bs)-int(p.bsp) < len(rest) && p.fill() > 0 {
+	}
+	return int(p.bsp) <= len(p.bs) && bytes.HasPrefix(p.bs[p.bsp:], rest)
 }
 
 // extendedGlob determines whether we're parsing a Bash extended globbing expression.
